@@ -39,6 +39,13 @@ def e2e_suite(profiles, oracles, n=None):
              env_quick=dict(env, VERIF_E2E_N=n or 10), env_thorough=dict(env, VERIF_E2E_N=(n or 10) * 10))
     return d
 
+HTTP_RULE = ("http: a real serverApp behind the real Serve mux on 127.0.0.1: systematically every route (data, data-recovery, validate, partials, static GET, "
+             "static DELETE) x 13 source values (valid, unknown, empty, '..', '.', '../..', 'good/..', other case, metacharacters, NUL) x allow-list on/off x "
+             "key list on/off x key {none, right, wrong}; every name of a 19-element traversal list (parent segments, absolute, a/../.., repeated and mixed "
+             "separators, percent-encoding, 300-byte names) in the name / predecessor / rename field of every route with separator header '', '/', '\\'; plus "
+             "seeded requests built from up to 3 traversal fragments; after each request the whole sandbox tree incl. files outside the configured directories "
+             "is compared with the snapshot before; non-trivial = unauthorised or dotted input; distinct = distinct input lines")
+
 PROPS = {
     "C09": dict(
         coq="Properties/C09.v",
@@ -320,5 +327,38 @@ PROPS = {
                     "thorough tier (not built)."),
         technique="Coq proof (field-wise inheritance, marker semantics, re-encode fixpoint, first-match tagger) + differential testing of the real conf code",
         assumptions=["an option whose value is the type's zero value is 'omitted' unless it carries an is-set marker (stated in the theorems)"],
+    ),
+    "C14": dict(
+        coq="Properties/C14.v",
+        suites=[dict(name="http", pkg="./main/", test="TestVerifHTTP", min_lines=500, timeout_quick=900,
+                     oracles=["touched_file_outside_configured_directories"],
+                     diffs=["escaping-name-not-refused", "local-name-refused", "static-served-unsafe-path"])],
+        rule=HTTP_RULE,
+        level_text=("Proof: every name accepted by the routes' guard (filepath.IsLocal and not the directory itself) resolves, by the lexical Clean+Join the "
+                    "stage applies, to root ++ cleaned-name - so it has the per-source root as a prefix - for all roots and names; escaping, absolute and empty "
+                    "names are refused; plain names are accepted. Tied to the code end to end: a real serverApp (real standardValidator, source mangling, "
+                    "payload.NewDecoder, stage) behind the real Serve mux on 127.0.0.1; every field of every route filled from a traversal grammar; the whole "
+                    "sandbox tree (incl. files outside the configured directories) compared before/after every request."),
+        level_note=("Trusted: Coq kernel (no axioms), extraction, harness (OCaml glue re-implements strings.Split + filepath.Join for the separator header; "
+                    "path.Clean is the model's clean_rel/clean_abs). Library code: filepath.IsLocal / Clean (modelled lexically), net/http mux path cleaning and "
+                    "redirects, os.Root in the static route. Symlinks planted inside the roots by other means are out of scope."),
+        technique="Coq proof (lexical path cleaning, locality => prefix) + end-to-end traversal grammar over all routes with before/after tree comparison",
+        assumptions=["Linux path separator; the per-source root itself contains no dot segments (it is filepath.Join'ed from configured directories)"],
+    ),
+    "C15": dict(
+        coq="Properties/C15.v",
+        suites=[dict(name="http", pkg="./main/", test="TestVerifHTTP", min_lines=500, timeout_quick=900,
+                     oracles=["refused_request_had_effect", "unauthorised_request_processed"],
+                     diffs=["refusal-code", "partials-status"])],
+        rule=HTTP_RULE,
+        level_text=("Proof: the validation decision is exactly: source named and safe, gate keeper ready, source on the list (with the allowed character set) "
+                    "when a list is configured, key on the key list when configured; otherwise 400 / 503 / 403 in that order and the wrapped route is not "
+                    "entered. Tied to the code end to end: all routes x source / key values (wrong, empty, other case, separators, metacharacters, dot "
+                    "segments, another source's key) x allow-list variants through the real Serve mux; a refused request must change nothing in the whole "
+                    "sandbox tree, and the status must be the model's."),
+        level_note=("Trusted as C14. The 'still recovering => 503' branch is a theorem about the decision function; that stage.New starts READY and main/server.go "
+                    "runs Recover in a goroutine (so the first microseconds after start-up are not covered by the 503) is a documented window, not exercised."),
+        technique="Coq proof (decision iff-theorem, refusal-code theorem) + end-to-end enumeration of routes x credentials with no-effect oracle",
+        assumptions=["the request validator is main.standardValidator (not the database-backed one)"],
     ),
 }
